@@ -15,7 +15,7 @@ import idl
 # ------------------------------------------------------------------------------------------------ patterns
 ANN_PATS = ["none", "empty", "one", "rep2", "rep_inter", "rep_same", "multi"]
 CMT_PATS = ["none", "line", "block", "unix", "two", "trail", "both", "blockml"]
-ID_PATS = ["explicit", "implicit", "mixed", "gap", "neg"]
+ID_PATS = ["explicit", "implicit", "mixed", "gap", "neg", "desc"]
 ENUM_PATS = ["implicit", "explicit", "mixed", "neg", "hex"]
 NODE_KINDS = ["struct", "union", "exception", "field", "enum", "enumvalue", "typedef", "const", "service", "method",
               "arg", "throw"]
@@ -135,6 +135,8 @@ class Builder:
             return [5] + [None] * (n - 1)
         if pat == "gap":
             return [None, 10] + [None] * (n - 2) if n >= 2 else [None] * n
+        if pat == "desc":                               # ids not ascending in declaration order
+            return list(range(n, 0, -1))
         if pat == "neg":
             out = [-(n + 1)] + [None] * (n - 1)      # -(n+1), -n, .. stay negative / zero-free
             return out
@@ -267,6 +269,9 @@ class Builder:
               ("default", "TdM", "tm", None), ("optional", "U1", "u", None), ("default", "map<E1,S2>", "mes", None)]
         for k, (ty, v) in enumerate(dflts[:5]):
             s1.append((reqs[(k + rot) % 3], ty, "d%d" % k, v))
+        # defaults that are the zero value of their type (an encoder that confuses "zero" with "absent" drops them)
+        s1 += [("default", "double", "z0", {"d": "0.0"}), ("optional", "i32", "z1", I(0)), ("default", "string", "z2", S("")),
+               ("optional", "bool", "z3", ID("false"))]
         for k, (al, tg) in enumerate(refs):
             s1.append(("default", "%s.St%s" % (al, tg), "xs%d" % k, None))
             s1.append(("optional", "list<%s.Td%s>" % (al, tg), "xt%d" % k, None))
